@@ -2641,6 +2641,9 @@ func decodeOVSDPCounters(data *[]byte) (SFlowOVSDPCounters, error) {
 	dp := SFlowOVSDPCounters{}
 	var cdf SFlowCounterDataFormat
 
+	if len(*data) < 32 {
+		return dp, errors.New("OVS datapath counters too small")
+	}
 	*data, cdf = (*data)[4:], SFlowCounterDataFormat(binary.BigEndian.Uint32((*data)[:4]))
 	dp.EnterpriseID, dp.Format = cdf.decode()
 	*data, dp.FlowDataLength = (*data)[4:], binary.BigEndian.Uint32((*data)[:4])
